@@ -131,7 +131,9 @@ def async_target(ctx, target: str, rng: random.Random) -> str | None:
     syield = rng.choice([0, 1, 2])
     ssleep = rng.choice([0, 0, 0.5])
     sizes = [rng.choice([0, 10, 300, 5000]) for _ in range(N)]
-    cancel_some = rng.random() < 0.3 and target != "endpoint"
+    # cancelling a sender is exercised on the lock-based targets only: over TLS a sender cancelled in the middle of writing a
+    # record to the wrapped transport leaves a truncated record behind, which no later sender can repair (inherent to TLS)
+    cancel_some = rng.random() < 0.3 and target not in ("endpoint", "tls")
     results: list = []
     holder: dict = {}
 
@@ -143,6 +145,7 @@ def async_target(ctx, target: str, rng: random.Random) -> str | None:
             a, b = memtransport.stream_pair(backend)
             a.send_frag, a.send_yield, a.send_sleep = frag, syield, ssleep
             peer = tlspeer.AsyncPeer(b, tlspeer.server_context("1.3"), server_side=True)
+            holder["peer"] = peer
             hs = asyncio.ensure_future(peer.handshake())
             from easynetwork.lowlevel.api_async.transports.tls import AsyncTLSStreamTransport
 
@@ -150,15 +153,53 @@ def async_target(ctx, target: str, rng: random.Random) -> str | None:
             await hs
             holder["mem"] = a
             prod = StreamDataProducer(proto)
+            # back-pressure (bounded pipe towards the peer) and a concurrent reader on the library side: the reader's
+            # WANT_READ path flushes pending ciphertext too, and must do so under the same discipline as the senders
+            if rng.random() < 0.6:
+                a.outgoing.capacity = rng.choice([512, 4096])
+            lib_got = bytearray()
+
+            async def lib_reader():
+                try:
+                    while True:
+                        d = await t.recv(4096)
+                        if not d:
+                            return
+                        lib_got.extend(d)
+                except Exception as exc:  # noqa: BLE001
+                    holder["reader_error"] = f"{type(exc).__name__}: {exc}"
+
+            use_reader = rng.random() < 0.7
+            peer_reader = asyncio.ensure_future(peer.read_until_end())
+            lr = asyncio.ensure_future(lib_reader()) if use_reader else None
+            trickle = None
+            if use_reader and rng.random() < 0.7:
+                # the peer keeps sending small messages, so the library's reader keeps cycling through its WANT_READ path
+                # (which also flushes pending ciphertext) while the senders are suspended in the wrapped transport
+                async def trickler():
+                    try:
+                        for i in range(200):
+                            await peer.write(b"t%03d" % i)
+                            await asyncio.sleep(0)
+                    except Exception:  # noqa: BLE001
+                        pass
+
+                trickle = asyncio.ensure_future(trickler())
+            holder["trickle"] = trickle
 
             async def send(pkt):
                 await t.send_all_from_iterable(prod.generate(pkt))
 
             async def finish():
-                reader = asyncio.ensure_future(peer.read_until_end())
+                if holder.get("trickle") is not None:
+                    holder["trickle"].cancel()
+                    await asyncio.gather(holder["trickle"], return_exceptions=True)
+                if lr is not None:
+                    lr.cancel()
+                    await asyncio.gather(lr, return_exceptions=True)
                 await t.aclose()
                 await peer.unwrap()
-                await reader
+                holder["peer_end"] = await peer_reader
                 holder["wire"] = bytes(peer.plaintext_in)
 
         else:
@@ -228,6 +269,8 @@ def async_target(ctx, target: str, rng: random.Random) -> str | None:
     except vloop.Quiescent as exc:
         return f"deadlock: {exc}"
     mem = holder["mem"]
+    if target == "tls" and str(holder.get("peer_end", "clean")).startswith("error"):
+        return f"the peer's TLS stream broke ({holder['peer_end']}: {getattr(holder.get('peer'), 'read_error', None)}): records were interleaved or reordered on the wire"
     if mem.overlap_attempts and target != "tls":
         return f"the transport saw {mem.overlap_attempts} send_all calls enter while another one was suspended in it (senders were not serialized)"
     wire_packets, why = parse_wire(holder.get("wire", b""))
